@@ -1183,7 +1183,7 @@ def gen_c18(rng):
         st['check_overlap'] = True
     hist.append(st)
     hist.append(dict(op='ifexists', h=20))
-    hist.append(chk(20, ['values', 'valid', 'nvalid', 'layout']))
+    hist.append(chk(20, ['values', 'valid', 'nvalid', 'layout', 'cov', 'raw']))
     return hist
 
 
